@@ -89,7 +89,27 @@ def resolveEmpt (run : Nat → Except Fault (Map × Out)) (glObs : Option Nat) :
       else (match run (g - m.main.gl) with
             | .ok r => .ok r
             | .error f => .error f)
-    | .error f => .error f
+    | .error f =>
+      -- an erasure followed by an insertion (entry chains): the insertion's fate depends on it
+      (match run 1 with
+       | .ok (m, out) => if m.main.gl == g then .ok (m, out) else .error f
+       | .error _ => .error f)
+
+/-- entry chains may erase once and insert (with up to `R` carried elements) in one call -/
+def resolveBoth (run : Nat → Nat → Except Fault (Map × Out)) (glObs : Option Nat) (maxH : Nat) :
+    Except Fault (Map × Out) :=
+  match glObs with
+  | none => run 0 0
+  | some g =>
+    let cands : List (Nat × Nat) := (List.range (maxH + 1)).flatMap (fun h => [(0, h), (1, h)])
+    let first := run 0 0
+    let rec go : List (Nat × Nat) → Except Fault (Map × Out)
+      | [] => first
+      | (e, h) :: rest =>
+        match run e h with
+        | .ok (m, out) => if m.main.gl == g then .ok (m, out) else go rest
+        | .error _ => go rest
+    go cands
 
 def sortEnts (es : List Entry) : List Entry := (es.toArray.qsort (fun a b => a.k < b.k)).toList
 
@@ -159,15 +179,33 @@ def replayLine (s : DState) (op : String) (mid : Nat) (args : List String) (orc 
       match stepsL with
       | none => .bad s!"steps {steps}"
       | some st =>
-        let hasErase := st.any (fun x => match x with
-          | .occRemove | .occRemoveEntry | .andReplace false _ | .occReplaceWith false _ => true | _ => false)
-        if hasErase then
-          fin (resolveEmpt (fun e => Map.entryChain c (raw == "1") lh m k kid st { o with empt := e }) glObs)
-        else
-          fin (resolveHits (fun h => Map.entryChain c (raw == "1") lh m k kid st { o with hits := h }) glObs (c.R + 2))
+        fin (resolveBoth (fun e h => Map.entryChain c (raw == "1") lh m k kid st { o with empt := e, hits := h })
+              glObs (c.R + 2))
   | "drop", [] => needMap fun m =>
       .ok (delMap s mid) [("drop", fmtIds (Map.dropAll m).dropped), ("df", toString (Map.dropAll m).frees)]
   | "forget", [] => .ok (delMap s mid) []
+  | "sync", [] =>
+    -- adopt the implementation's state (after a call the model does not replay step by step)
+    let pe (x : String) : Option Entry :=
+      match x.splitOn ":" with
+      | [a, b] => (match a.splitOn "#", b.splitOn "#" with
+        | [k, kid], [v, vid] => do
+          pure { k := ← k.toNat?, kid := ← kid.toNat?, v := ← v.toNat?, vid := ← vid.toNat? }
+        | _, _ => none)
+      | _ => none
+    let pl (f : String) : Option (List Entry) :=
+      match field? orc f with
+      | none => some []
+      | some "-" => some []
+      | some x => (x.splitOn ",").mapM pe
+    match pl "main", pl "oldents" with
+    | some me, some oe =>
+      let lo : Option Old := match (field? orc "ob").bind (·.toNat?) with
+        | some ob => some { buckets := ob, ents := oe, cursor := fieldNat orc "cur" }
+        | none => none
+      let m : Map := { main := { buckets := fieldNat orc "mb", ents := me, gl := fieldNat orc "mgl" }, lo := lo }
+      .ok (setMap s mid m) []
+    | _, _ => .bad "sync"
   | _, _ => .bad s!"unknown op {op} {args}"
 
 def processLine (s : DState) (line : String) : DState × List String :=
